@@ -256,6 +256,16 @@ func c09(c *Ctx) {
 				fs[p] = tr.Packet(order[i])
 			}
 		}
+		if style == 3 && k >= 5 && rng.Intn(2) == 0 {
+			// a second transfer (same id: reuses the slot table; or another id) completing later in the
+			// history: two reassembled bodies must not share memory
+			id2 := []uint16{0x0801, 0x0704}[rng.Intn(2)]
+			tr2 := RandTransfer(rng, id2, 2, 8)
+			fs = append(fs, tr2.Packet(1), tr2.Packet(2))
+			if rng.Intn(2) == 0 {
+				fs = append(fs, FrameSpec{ID: 0x0002, Phone: ph, Serial: 9})
+			}
+		}
 		var w []byte
 		var ends []int
 		for _, f := range fs {
